@@ -216,6 +216,17 @@ def judge(case, m):
     k = int(rng.integers(1, n_new))
     S = np.sort(rng.choice(n_new, size=k, replace=False))
     new, seen = plant(base, meta, col, S)
+    # arbitrary index on the new frame (permuted, non-unique, strings): rows are positions, not labels
+    ik = int(rng.integers(0, 4))
+    if ik == 1:
+        lab = rng.permutation(n_new)
+    elif ik == 2:
+        lab = np.repeat(np.arange((n_new + 1) // 2), 2)[:n_new]
+    elif ik == 3:
+        lab = np.array([f"r{(j * 3) % n_new}" for j in range(n_new)], dtype=object)
+    if ik:
+        new.index = pd.Index(lab)
+        seen.index = pd.Index(lab)
     onS = np.zeros(n_new, bool)
     onS[S] = True
     case.update(planted={"column": col, "rows": S.tolist(), "kind": meta[col]["kind"]})
